@@ -294,7 +294,12 @@ func c11E2E(elems []c11Elem, stream []byte, cuts []int) (string, string) {
 		if m.IsRequest() {
 			for i, h := range m.Hdrs {
 				if canonName(h.Name) == "via" {
-					m.Hdrs = append(m.Hdrs[:i:i], m.Hdrs[i+1:]...)
+					// the proxy's entry is the topmost VALUE: a line of its own, or joined in front of the sender's
+					if vals := SplitTop(h.Value, ','); len(vals) > 1 {
+						m.Hdrs[i].Value = strings.TrimLeft(strings.Join(vals[1:], ","), " \t")
+					} else {
+						m.Hdrs = append(m.Hdrs[:i:i], m.Hdrs[i+1:]...)
+					}
 					break
 				}
 			}
